@@ -452,6 +452,7 @@ func evalFailsafe(c *Case) *Verdict {
 		}
 	}
 	for _, f := range plans {
+		heartbeat()
 		a := runAPI(c, sched, []Fault{f})
 		record(a)
 		fired := 0
